@@ -520,7 +520,109 @@ def p_selfjump(r, op):
     return line(op, r, cbase, [(cbase, p.assemble())], [data], r.randint(2, 12), presets(r, ptr))
 
 
-SHAPES = [(p_selfjump, 1), (p_straight, 3), (p_membuf, 4), (p_loop, 3), (p_branches, 2), (p_calls, 2), (p_badjump, 2),
+# ---------------------------------------------------------------- the top of the address space (F45)
+
+def _mix(h, x):
+    return ((h ^ x) * 1099511628211 + 0x9e3779b97f4a7c15) % M64
+
+
+def prov_reg(seed, key):
+    """the 64 bit value the harness' state provider answers for register key (ops_emu.go: semuRegValue)"""
+    h = _mix(seed, 77)
+    for c in key:
+        h = _mix(h, ord(c))
+    k = h % 8
+    if k == 0:
+        return 0
+    if k == 1:
+        return M64 - 1
+    if k == 2:
+        return 2 ** 63
+    if k == 3:
+        return 2 ** 63 - 1
+    if k == 4:
+        return _mix(h, 5) % 256
+    if k == 5:
+        return M64 - 1 - _mix(h, 5) % 256
+    return _mix(h, 1)
+
+
+def _top_access(r, p, base_reg, base_val, val_reg):
+    """one access through base_reg (holding base_val) whose end lies at / just below / just above 2^64"""
+    k = r.random()
+    if k < 0.4:
+        nm, n = r.choice(LOADS)
+        kind = "l"
+    elif k < 0.8:
+        nm, n = r.choice(STORES)
+        kind = "s"
+    else:
+        kind = "a"
+    if kind == "a":
+        # atomics have no immediate: the address is the register itself
+        k = r.random()
+        if k < 0.4:
+            p.emit(amo(r.choice(AMOS_W), reg(r), base_reg, val_reg, r.randrange(4)))
+        elif k < 0.75:
+            p.emit(amo(r.choice(AMOS_D), reg(r), base_reg, val_reg, r.randrange(4)))
+        elif k < 0.87:
+            p.emit(amo(r.choice(["lr.w", "lr.d"]), r.choice(WORK), base_reg, 0, r.randrange(4)))
+        else:
+            p.emit(amo(r.choice(["sc.w", "sc.d"]), reg(r), base_reg, val_reg, r.randrange(4)))
+        return
+    # end - 2^64: -1 and below = inside the address space, 0 = the end is exactly 2^64, above = wrapped
+    e = r.choice([-2, -1, -1, 0, 0, 0, 1, 1, 2, n - 1, n - 1, -n, r.randint(-12, 12)])
+    addr = (M64 + e - n) % M64
+    imm = (addr - base_val) % M64
+    if imm >= M64 - 2048:
+        imm -= M64
+    if not -2048 <= imm <= 2047:
+        imm = r.choice([-1, -2, -4, -8, 0, 1, 4, 2047, -2048, imm12(r)])
+    if kind == "l":
+        p.emit(itype(nm, r.choice(WORK), base_reg, imm))
+    else:
+        p.emit(stype(nm, val_reg, base_reg, imm))
+
+
+def p_top(r, op):
+    """loads, stores and atomics whose range ends at, just below or just above 2^64: through immediates on x0
+    (lb x3,-1(x0)), through a pre-set register, through a register the provider answers with 0xffff... (the console
+    scenario of F45); earlier instructions have already changed the state, the value register of a store may be
+    unknown as well (asked before the failing check), in-domain accesses right below the top go on"""
+    cbase, data, ptr = layout(r)
+    p = Prog(r, cbase)
+    pre = presets(r, ptr)
+    seed = r.randrange(1, 10 ** 6)
+    body(r, p, r.randint(0, 4), mem=r.choice([0.0, 0.4]))
+    for _ in range(r.choice([1, 1, 1, 2, 3])):
+        k = r.random()
+        if k < 0.3:
+            base_reg, base_val = 0, 0
+        elif k < 0.6:
+            base_reg = r.choice(WORK)
+            base_val = M64 - r.choice([1, 1, 2, 3, 4, 5, 7, 8, 9, 15, 16, 17, 255, 256, 1000, 2040, 2047, 2048, 2049])
+            pre["x%d" % base_reg] = le(base_val)
+        else:
+            base_reg = r.choice([20, 21, 22, 23, 24])
+            key = "x%d" % base_reg
+            pre.pop(key, None)
+            for _ in range(64):
+                if prov_reg(seed, key) >= M64 - 256:
+                    break
+                seed = r.randrange(1, 10 ** 6)
+            base_val = prov_reg(seed, key)
+        val_reg = r.choice(WORK + [0, 25, 26])       # x25, x26: never pre-set, the provider is asked for the value
+        _top_access(r, p, base_reg, base_val, val_reg)
+        body(r, p, r.randint(0, 2), mem=r.choice([0.0, 0.3]))
+    dat = [data]
+    if r.random() < 0.25:
+        # image bytes right below the top (the block ends below 2^64 - 1)
+        n = r.choice([4, 8, 14])
+        dat = [data, (M64 - 16, bytes(r.randrange(256) for _ in range(n)))]
+    return line(op, r, cbase, [(cbase, p.assemble())], dat, len(p.words), pre, seed=seed)
+
+
+SHAPES = [(p_top, 3), (p_selfjump, 1), (p_straight, 3), (p_membuf, 4), (p_loop, 3), (p_branches, 2), (p_calls, 2), (p_badjump, 2),
           (p_div, 1), (p_narrowreg, 1), (p_unknown, 3), (p_readcode, 1), (p_blocks, 1)]
 
 
@@ -548,3 +650,11 @@ def g_emu_mem(r):
 
 def g_emuq_unknown(r):
     return r.choice([p_unknown, p_membuf, p_loop])(r, "emuq")
+
+
+def g_emu_top(r):
+    return p_top(r, "emu")
+
+
+def g_emuq_top(r):
+    return p_top(r, "emuq")
